@@ -125,6 +125,9 @@ def install_cycle_monitors() -> None:
         mod = self.system.allobjects.get(modname)
         if isinstance(mod, model.Module) and mod.state is model.ProcessingState.PROCESSING:
             self.system.__dict__.setdefault('_vf_star_in_progress', []).append((self.builder.current.module.fullName(), modname))
+            # what the module had defined by then: only names defined later are lost to this import
+            self.system.__dict__.setdefault('_vf_in_progress_bound', {})[(self.builder.current.module.fullName(), modname)] = \
+                set(mod.contents)
         return orig_all(self, modname)
     astbuilder.ModuleVistor._importAll = _importAll  # type: ignore[method-assign]
     orig_names = astbuilder.ModuleVistor._importNames
@@ -133,5 +136,9 @@ def install_cycle_monitors() -> None:
         mod = self.system.allobjects.get(modname)
         if isinstance(mod, model.Module) and mod.state is model.ProcessingState.PROCESSING:
             self.system.__dict__.setdefault('_vf_from_in_progress', []).append((self.builder.current.module.fullName(), modname))
+            key = (self.builder.current.module.fullName(), modname)
+            bound = set(mod.contents)        # (what the module had *defined*: a name it merely imported so far is not the object to move)
+            prev = self.system.__dict__.setdefault('_vf_in_progress_bound', {}).get(key)
+            self.system.__dict__['_vf_in_progress_bound'][key] = bound if prev is None else (prev & bound)
         return orig_names(self, modname, names)
     astbuilder.ModuleVistor._importNames = _importNames  # type: ignore[method-assign]
